@@ -194,7 +194,7 @@ def _worker(args: Tuple[str, List[tuple], int, int, bool, int]) -> dict:
                     h = tvgen.canon_hash([rname, erase(tv)])
                     if h not in res["hashes"]:
                         res["hashes"].add(h)
-                        if len(res["samples"]) < 2 and st_.nodes < 40:
+                        if len(res["samples"]) < 2 and st_.nodes < 40 and len(json.dumps(erase(tv), default=repr)) < 1500:
                             res["samples"].append({"root": rname, "json": erase(tv)})
             return fs
 
